@@ -26,6 +26,7 @@ theorem stepEv_answers (cfg : Config) (srv : Server) (e : Event) : Answers srv e
   | expire sid => rfl
   | frame c => rfl
   | response c => rfl
+  | silence => rfl
   | req c r =>
     simp only [stepEv, Answers]
     cases h : findConn srv c with
@@ -81,6 +82,7 @@ theorem responses_echo_cseq (cfg : Config) : ∀ (evs : List Event) (srv : Serve
     | expire sid => simp only [Answers] at ha; simp [run, delivered, ha, ih]
     | frame c => simp only [Answers] at ha; simp [run, delivered, ha, ih]
     | response c => simp only [Answers] at ha; simp [run, delivered, ha, ih]
+    | silence => simp only [Answers] at ha; simp [run, delivered, ha, ih]
     | req c r =>
       simp only [Answers] at ha
       by_cases hc : (findConn srv c).isSome = true
